@@ -434,6 +434,7 @@ class EngineBase(metaclass=ABCMeta):
         written = set()
         with open(sourcefile, encoding="utf-8") as infile:
             with open(outputfile, mode="w", encoding="utf-8") as outfile:
+                to_write = ""
                 for line in infile:
                     to_write = line
                     match = reg.match(line)
@@ -445,9 +446,12 @@ class EngineBase(metaclass=ABCMeta):
                         written.add(keyword_strip)
                     outfile.write(to_write)
                 # Add settings not yet written:
-                for key, value in settings.items():
-                    if key not in written:
-                        outfile.write(f"{key} {delim} {value}\n")
+                missing = [key for key in settings if key not in written]
+                if missing and to_write and not to_write.endswith("\n"):
+                    # the template does not end with a newline
+                    outfile.write("\n")
+                for key in missing:
+                    outfile.write(f"{key} {delim} {settings[key]}\n")
 
     @staticmethod
     def _read_input_settings(
